@@ -264,6 +264,10 @@ def run_index(case):
         sig = {"mode": "position", "by": by}
         for name, f in P:
             _apply(f, pexc, vals, dims, labels, pidx, "%s pidx=%s" % (name, core.jsonable(pidx)), sig)
+        if keepdims:
+            # keepdims in position mode: scalar positions (negative ones included) keep their dimension, with the one label
+            _apply(lambda: a.take(pt, indexing="position", keepdims=True), pexc, vals, dims, labels, pidx, "take(t, indexing=position, keepdims=True) pidx=%s" % core.jsonable(pidx), sig, keepdims=True)
+            _apply(lambda: a.take(dict(pdict), indexing="position", keepdims=True), pexc, vals, dims, labels, pidx, "take({dim: i}, indexing=position, keepdims=True) pidx=%s" % core.jsonable(pidx), sig, keepdims=True)
     # the array remembers the mode it was created under; `.ix` is the toggle of the array's own mode, also when the global option has
     # been changed in between
     other = "position" if by == "label" else "label"
